@@ -34,7 +34,8 @@ def gen_case(rng):
         else:
             acc = [f for f in ic.FILES if rng.random() < rng.choice([0.2, 0.5, 0.8])]
         tracers.append({"cls": "Tr%s" % "ABC"[i], "accept": acc, "events": rng.choice(EVENT_SETS), "guards": rng.random() < 0.6})
-    return {"seed": rng.randrange(10 ** 6), "tracers": tracers, "pre_e": rng.random() < 0.4, "reimport": rng.random() < 0.4}
+    return {"seed": rng.randrange(10 ** 6), "tracers": tracers, "pre_e": rng.random() < 0.4, "reimport": rng.random() < 0.4,
+            "reload": rng.choice([None, None, "pk.b", "px.e", "pk.sub.c"]), "evict": rng.choice([None, None, None, "pk.b", "px.e"])}
 
 
 def accepts(t, f):
@@ -43,6 +44,8 @@ def accepts(t, f):
 
 def payloads(c):
     imports = ["pk"] + (["pk.a", "pk.sub.c"] if c["reimport"] else []) + ["px.e"]
+    # importlib.reload of a loaded module / a fresh import after eviction from sys.modules, inside the context
+    imports += (["reload:" + c["reload"]] if c.get("reload") else []) + (["evict:" + c["evict"]] if c.get("evict") else [])
     base = {"imports": imports, "pre": ["px.e"] if c["pre_e"] else [], "post": ["px.d"], "calls": ["pk.a.fa", "px.e.fe"], "post_calls": ["pk.a.fa", "pk.b.fb"]}
     # fa / fb take an argument: call them through zero-argument wrappers defined below in the layout
     base["calls"] = ["pk.call_fa", "px.e.fe"]
@@ -110,6 +113,10 @@ def oracle_case(c, rs):
             return {"what": "process %d: after the context the import system still instruments (events %d, finder left %s, cache functions patched %s)"
                     % (k, r["post_events"], r["finder_left"], r["cache_fn_patched"]), "kind": "after", "process": k}
     loaded = set(IN_CTX) | (set() if c["pre_e"] else {"px/e.py"})
+    inv = {m: f for f, m in ic.MODULE_OF.items()}
+    for k in ("reload", "evict"):                 # loaded again inside the context
+        if c.get(k):
+            loaded.add(inv[c[k]])
     for ti, t in enumerate(c["tracers"]):
         for f in ic.FILES:
             ev = per(stacked["events"], ti, f)
@@ -130,6 +137,20 @@ def oracle_case(c, rs):
             return {"what": "tracer %d %s: %d events from the files it accepts, %d when it accepts every file%s"
                     % (ti, label, len(got), len(ideal), "" if lost is None else " (%d lost, first: %s)" % (len(lost), lost[0])),
                     "kind": "foreign-exec" if explained else "events", "tracer": ti}
+    # a module loaded several times inside the context (first import, importlib.reload, fresh import after eviction) delivers the events of
+    # its own body every time: in the accept-everything run of each tracer the body's stream is the same block repeated
+    for k in ("reload", "evict"):
+        if not c.get(k):
+            continue
+        f = inv[c[k]]
+        loads = (1 if (f in IN_CTX or (f == "px/e.py" and not c["pre_e"])) else 0) + (1 if c.get("reload") == c[k] else 0) + (1 if c.get("evict") == c[k] else 0)
+        for ti in range(n):
+            body = [e[1:4] for e in alls[ti]["events"] if e[1] == f and e[4] and e[4][0] == f]
+            if loads >= 2 and body:
+                blk = len(body) // loads
+                if len(body) % loads or any(body[i * blk:(i + 1) * blk] != body[:blk] for i in range(loads)):
+                    return {"what": "%s is loaded %d times inside the context (%s) but its body's events do not arrive %d times: %d events in all for tracer %d"
+                                    % (f, loads, k, loads, len(body), ti), "kind": "reload", "tracer": ti, "file": f}
     return None
 
 
